@@ -9,7 +9,7 @@ TLC : NoAcceptAfterStart, ShortCompletes, BoundedReturn on every configuration o
 bind: scenarios played against the real proxy.ListenAndServe* listeners (real `servers` registry),
       real in-flight requests / tunnels / streams and the real proxy.Shutdown(W)
       (harness/proxy/c18_test.go); thorough also runs the built fabio binary and sends SIGTERM"""
-import json, os, random, signal, socket, subprocess, time
+import json, os, random, signal, socket, subprocess, threading, time
 from lib import vf
 
 CFG = """SPECIFICATION %(spec)s
@@ -87,52 +87,79 @@ def run(ctx):
     ctx.level = "model_checking"
     ctx.assumptions += [
         "1 tick = 150 ms, W = proxy.shutdownwait = 4 ticks = 600 ms, slack = 2 s: Shutdown must return within 2.6 s; short work = 150 ms (4x below W), long = 6 s (10x above), never-ending work ends with the scenario",
-        "one listener per kind in a configuration ({http, https, tcp, tcp+sni, grpc, https+tcp+sni}), <=2 work items per listener, all accepted (first answer bytes received by the client) before Shutdown is called",
+        "one listener per kind in a configuration ({http, https, tcp, tcp+sni, grpc, https+tcp+sni}; 'k~2' = a second listener on the same port of 127.0.0.2), <=2 work items per listener, all in flight (first answer bytes received by the client; for a half-closed tunnel: the upstream has seen the client's EOF) before Shutdown is called",
+        "when Shutdown has returned the harness closes every server, as the process exit does in fabio's main: work a listener was not waited for is cut there",
         "a short item is asserted to complete only if its server side ended within W/2 of the shutdown start by the harness's own clock (a slower machine gives no verdict on that item; counted as skipped)",
         "'no listener accepts': one fresh connection per listener 100 ms after Shutdown was called must be refused or closed without an answer; new requests on connections that already exist are not covered",
         "the statement is silent about work that outlasts the wait (cut or left running): nothing is asserted about it except that it does not delay the return",
         "the grpc listener carries the options main.newGrpcProxy builds (codec, transparent handler, interceptor), reconstructed in the harness because package proxy cannot import main",
     ]
-    # 1. the design on the model
-    mc = ctx.tlc("Shutdown_MC", cfg_text=cfg(ms=2, st=ctx.pick(1, 2)), workers=8, timeout=ctx.pick(300, 1200), coverage=ctx.thorough)
-    ctx.log("MC (<=2 of 6 kinds): %d states, %d distinct, depth %d, %.0fs" % (mc.generated, mc.distinct, mc.depth, mc.wall))
-    if not ctx.need_tlc_ok(mc, "Shutdown MC"):
-        return
-    ctx.cover("mc", states=mc.distinct, transitions=mc.generated)
-    if ctx.thorough:
-        mc3 = ctx.tlc("Shutdown_MC", cfg_text=cfg(ms=3, st=1, ko="MCKindOrder4"), workers=8, timeout=1500)
-        ctx.log("MC (<=3 of 4 kinds): %d states, %d distinct, depth %d, %.0fs" % (mc3.generated, mc3.distinct, mc3.depth, mc3.wall))
-        if not ctx.need_tlc_ok(mc3, "Shutdown MC, three listeners"):
-            return
-        ctx.cover("mc3", states=mc3.distinct, transitions=mc3.generated)
-    if ctx.thorough and set(mc.coverage0) & set(ACTIONS):
-        ctx.inconclusive("actions never taken: %s" % sorted(set(mc.coverage0) & set(ACTIONS)))
-        return
-    # the deviation of the pinned code, as a named constant: it must break exactly BoundedReturn
-    dv = ctx.tlc("Shutdown_MC", cfg_text=cfg(ms=1, gid="TRUE"), workers=4, timeout=300)
-    if dv.violated != "BoundedReturn":
-        ctx.inconclusive("model self-test: GrpcIgnoresDeadline=TRUE should violate BoundedReturn, got %r %r" % (dv.violated, dv.error))
-        return
-    ctx.cover("mc_deviation", states=dv.distinct, transitions=dv.generated)
-
-    # 2. scenarios
+    # 1. TLC, side by side: (a) the design on <=2 of the 6 kinds -- invariants checked and one scenario
+    #    printed per Return transition; (b) the same with listeners that share a port; (c) seeded simulation
+    #    over all six kinds; (d) the deviation of the pinned code, which must break exactly BoundedReturn;
+    #    thorough: (e) configurations of three listeners
     sink = os.path.join(ctx.tmp, "c18.gen")
-    g = ctx.tlc("Shutdown_MC", cfg_text=cfg(spec="GenSpec", ms=2, st=ctx.pick(1, 2)), json_sink=sink, workers=8, timeout=ctx.pick(300, 1200))
-    ctx.log("Gen: %d states, %.0fs" % (g.generated, g.wall))
-    if not ctx.need_tlc_ok(g, "Shutdown Gen"):
-        return
-    ctx.cover("gen", states=g.distinct, transitions=g.generated)
     sink2 = os.path.join(ctx.tmp, "c18.sim")
-    sim = ctx.tlc("Shutdown_MC", cfg_text=cfg(spec="GenSpec", ms=6, st=2), json_sink=sink2, simulate=ctx.pick(400, 4000), depth=80,
-                  seed=ctx.seed, timeout=600)
-    if sim.error or sim.violated or sim.timed_out:
-        ctx.need_tlc_ok(sim, "Shutdown simulation")
+    sink3 = os.path.join(ctx.tmp, "c18.twins")
+    jobs = [
+        ("gen", dict(cfg_text=cfg(spec="GenSpec", ms=2, st=ctx.pick(1, 2)), json_sink=sink, workers=4, timeout=ctx.pick(300, 1500), coverage=ctx.thorough)),
+        ("gen_twins", dict(cfg_text=cfg(spec="GenSpec", ms=2, st=1, ko="MCKindOrderTwins"), json_sink=sink3, workers=4, timeout=ctx.pick(300, 1500))),
+        ("sim", dict(cfg_text=cfg(spec="GenSpec", ms=6, st=2), json_sink=sink2, simulate=ctx.pick(400, 4000), depth=80, seed=ctx.seed, timeout=600)),
+        ("mc_deviation", dict(cfg_text=cfg(ms=1, gid="TRUE"), workers=2, timeout=300)),
+    ]
+    if ctx.thorough:
+        jobs.append(("mc3", dict(cfg_text=cfg(ms=3, st=1, ko="MCKindOrder4"), workers=4, timeout=1500)))
+    results = {}
+
+    def tlc_job(name, kw):
+        try:
+            results[name] = ctx.tlc("Shutdown_MC", **kw)
+        except Exception as e:
+            results[name] = e
+    threads = []
+    for name, kw in jobs:
+        t = threading.Thread(target=tlc_job, args=(name, kw))
+        t.start()
+        threads.append(t)
+        time.sleep(0.5)             # ctx.tlc numbers its scratch directories when it is entered
+    for t in threads:
+        t.join()
+    for name, kw in jobs:
+        r = results.get(name)
+        if r is None or isinstance(r, Exception):
+            ctx.inconclusive("Shutdown %s: TLC did not run: %r" % (name, r))
+            return
+        ctx.log("%s: %d states, %d distinct, depth %d, %.0fs" % (name, r.generated, r.distinct, r.depth, r.wall))
+        if name == "mc_deviation":
+            if r.violated != "BoundedReturn":
+                ctx.inconclusive("model self-test: GrpcIgnoresDeadline=TRUE should violate BoundedReturn, got %r %r" % (r.violated, r.error))
+                return
+        elif name == "sim":
+            if r.error or r.violated or r.timed_out:
+                ctx.need_tlc_ok(r, "Shutdown simulation")
+                return
+        elif not ctx.need_tlc_ok(r, "Shutdown " + name):
+            return
+        ctx.cover(name, states=r.distinct if name != "sim" else 0, transitions=r.generated)
+    if ctx.thorough and set(results["gen"].coverage0) & set(ACTIONS):
+        ctx.inconclusive("actions never taken: %s" % sorted(set(results["gen"].coverage0) & set(ACTIONS)))
         return
-    ctx.cover("sim", transitions=sim.generated)
+    twins = [s for s in read(sink3) if s["items"] and len(s["kinds"]) == 2 and sum(k.endswith("~2") for k in s["kinds"]) == 1]
     small = [s for s in read(sink) if s["items"]]
     big = [s for s in read(sink2) if len(s["kinds"]) >= 4 and len(s["items"]) >= 4]
     rnd = random.Random(ctx.seed)
-    chosen = stratified(small, ctx.pick(18, 260), rnd) + stratified(big, ctx.pick(4, 40), rnd)
+    # classes that must be present whatever the seed: (a) an idle listener that drains at once next to a
+    # listener with short work in flight, (b) a half-closed tunnel with a silent upstream that outlasts the
+    # wait, (c) two listeners on one port
+    idle = [s for s in small if len(s["kinds"]) == 2 and len({i["srv"] for i in s["items"]}) == 1
+            and any(i["dur"] == "short" and i["at"] == s["tstart"] for i in s["items"])
+            and (set(s["kinds"]) - {i["srv"] for i in s["items"]}) & {"http", "https", "grpc"}]
+    mute = [s for s in small if any(i["dur"] == "mute" for i in s["items"])]
+    chosen = (stratified(small, ctx.pick(14, 220), rnd) + stratified(big, ctx.pick(3, 40), rnd) + stratified(idle, ctx.pick(3, 18), rnd)
+              + stratified(mute, ctx.pick(2, 12), rnd) + stratified(twins, ctx.pick(3, 24), rnd))
+    if not idle or not mute or not twins:
+        ctx.inconclusive("the generator produced no idle-listener / half-closed-tunnel / shared-port scenario")
+        return
     if len(chosen) < 10:
         ctx.inconclusive("the generator produced only %d usable scenarios" % len(chosen))
         return
@@ -161,6 +188,9 @@ def run(ctx):
               distinct_nontrivial=s["distinct_nontrivial"], samples=s.get("samples") or [],
               rule="one scenario per Return transition TLC examined (<=2 listener kinds) plus seeded simulation behaviours over all six kinds, a stratified seeded slice of which is played (every kind x duration in flight at shutdown start first); non-trivial = distinct scenario with >=2 work items; evaluations = items + connection attempts + Shutdown calls")
     ctx.take_failures(r, "c18")
+    if s.get("twin_skipped"):
+        ctx.log("127.0.0.2 cannot be bound on this machine: %d shared-port scenarios skipped" % s["twin_skipped"])
+        ctx.assumptions.append("shared-port scenarios skipped: 127.0.0.2 not bindable (%d)" % s["twin_skipped"])
     if s["setup_failures"] * 5 > s["scenarios"]:
         ctx.inconclusive("%d of %d scenarios could not be staged" % (s["setup_failures"], s["scenarios"]))
     if s["asserted"] == 0 or s["skipped"] > s["asserted"]:
